@@ -213,8 +213,127 @@ func searchOffsets(v ssa.Value, r ssa.Value, seen map[ssa.Value]bool, off int, o
 	}
 }
 
+// searchCall: is call a sort.SearchFloat64s / sort.Search over some slice?
+// Returns the slice value that is searched (as seen at the call, or — for
+// the closure form — the value indexed inside the predicate) and whether the
+// predicate is strict (first T[i] > x).
+func searchCall(call *ssa.Call) (ssa.Value, bool, bool) {
+	f := call.Call.StaticCallee()
+	if f == nil || f.Pkg == nil || f.Pkg.Pkg.Path() != "sort" {
+		return nil, false, false
+	}
+	switch f.Name() {
+	case "SearchFloat64s":
+		return call.Call.Args[0], false, true
+	case "Search":
+		mc, ok := call.Call.Args[1].(*ssa.MakeClosure)
+		if !ok {
+			return nil, false, false
+		}
+		pred := mc.Fn.(*ssa.Function)
+		for _, pb := range pred.Blocks {
+			for _, pi := range pb.Instrs {
+				ret, ok := pi.(*ssa.Return)
+				if !ok || len(ret.Results) != 1 {
+					continue
+				}
+				be, ok := ret.Results[0].(*ssa.BinOp)
+				if !ok || (be.Op != token.GTR && be.Op != token.GEQ) {
+					continue
+				}
+				if ld, ok := be.X.(*ssa.UnOp); ok {
+					if ia, ok := ld.X.(*ssa.IndexAddr); ok {
+						return ia.X, be.Op == token.GTR, true
+					}
+				}
+			}
+		}
+	}
+	return nil, false, false
+}
+
+// paramOfValue: the slice value is (a copy of) a parameter of fn: the
+// parameter itself, or a load of the cell a captured parameter was spilled to.
+func paramOfValue(v ssa.Value) *ssa.Parameter {
+	switch x := v.(type) {
+	case *ssa.Parameter:
+		return x
+	case *ssa.UnOp:
+		if x.Op != token.MUL {
+			return nil
+		}
+		var cell ssa.Value = x.X
+		if fv, ok := cell.(*ssa.FreeVar); ok {
+			cell = freeVarBinding(fv)
+		}
+		if al, ok := cell.(*ssa.Alloc); ok {
+			var prm *ssa.Parameter
+			for _, ref := range *al.Referrers() {
+				if st, ok := ref.(*ssa.Store); ok && st.Addr == ssa.Value(al) {
+					p, isP := st.Val.(*ssa.Parameter)
+					if !isP || prm != nil {
+						return nil
+					}
+					prm = p
+				}
+			}
+			return prm
+		}
+	}
+	return nil
+}
+
+type searchHelper struct {
+	param  int
+	strict bool
+	offs   map[int]bool // offsets of the returned index relative to the raw search result
+}
+
 func (c *Ctx) runCumTab(rule string, pkgs []*packages.Package, fileOK func(fn *ssa.Function) bool) {
 	kinds, poss := c.cumulativeTables(pkgs)
+	// helpers: functions that search one of their slice parameters and return the index
+	helpers := map[*ssa.Function]searchHelper{}
+	for _, p := range pkgs {
+		if p == nil {
+			continue
+		}
+		for _, fn := range c.srcFuncs(p) {
+			if fn.Parent() != nil || fn.Signature.Results().Len() != 1 || !isIntType(fn.Signature.Results().At(0).Type()) {
+				continue
+			}
+			for _, b := range fn.Blocks {
+				for _, ins := range b.Instrs {
+					call, ok := ins.(*ssa.Call)
+					if !ok {
+						continue
+					}
+					tv, strict, ok := searchCall(call)
+					if !ok {
+						continue
+					}
+					prm := paramOfValue(tv)
+					if prm == nil || prm.Parent() != fn {
+						continue
+					}
+					idx := -1
+					for i, q := range fn.Params {
+						if q == prm {
+							idx = i
+						}
+					}
+					offs := map[int]bool{}
+					for _, b2 := range fn.Blocks {
+						if ret, ok := b2.Instrs[len(b2.Instrs)-1].(*ssa.Return); ok {
+							searchOffsets(ret.Results[0], call, map[ssa.Value]bool{}, 0, offs)
+						}
+					}
+					if idx >= 0 && len(offs) > 0 {
+						helpers[fn] = searchHelper{idx, strict, offs}
+					}
+				}
+			}
+		}
+	}
 	for _, p := range pkgs {
 		if p == nil {
 			continue
@@ -229,43 +348,23 @@ func (c *Ctx) runCumTab(rule string, pkgs []*packages.Package, fileOK func(fn *s
 					if !ok {
 						continue
 					}
-					f := call.Call.StaticCallee()
-					if f == nil || f.Pkg == nil || f.Pkg.Pkg.Path() != "sort" {
-						continue
-					}
 					var tab types.Object
 					strict := false
-					switch f.Name() {
-					case "SearchFloat64s":
-						tab = tableOfValue(call.Call.Args[0])
-					case "Search":
-						mc, ok := call.Call.Args[1].(*ssa.MakeClosure)
-						if !ok {
-							continue
-						}
-						pred := mc.Fn.(*ssa.Function)
-						for _, pb := range pred.Blocks {
-							for _, pi := range pb.Instrs {
-								ret, ok := pi.(*ssa.Return)
-								if !ok || len(ret.Results) != 1 {
-									continue
-								}
-								be, ok := ret.Results[0].(*ssa.BinOp)
-								if !ok || (be.Op != token.GTR && be.Op != token.GEQ) {
-									continue
-								}
-								if ld, ok := be.X.(*ssa.UnOp); ok {
-									if ia, ok := ld.X.(*ssa.IndexAddr); ok {
-										if t := tableOfValue(ia.X); t != nil {
-											tab = t
-											strict = be.Op == token.GTR
-										}
-									}
-								}
+					base := map[int]bool{0: true}
+					via := ""
+					if tv, st, ok := searchCall(call); ok {
+						tab, strict = tableOfValue(tv), st
+					} else if callee := call.Call.StaticCallee(); callee != nil {
+						if h, ok := helpers[callee]; ok {
+							args := call.Call.Args
+							if callee.Signature.Recv() != nil {
+								// Params include the receiver
+							}
+							if h.param < len(args) {
+								tab, strict, base = tableOfValue(args[h.param]), h.strict, h.offs
+								via = " (through " + callee.Name() + ")"
 							}
 						}
-					default:
-						continue
 					}
 					if tab == nil {
 						continue
@@ -287,7 +386,13 @@ func (c *Ctx) runCumTab(rule string, pkgs []*packages.Package, fileOK func(fn *s
 								idx = x.Index
 							}
 							if idx != nil {
-								searchOffsets(idx, call, map[ssa.Value]bool{}, 0, offs)
+								local := map[int]bool{}
+								searchOffsets(idx, call, map[ssa.Value]bool{}, 0, local)
+								for o := range local {
+									for bo := range base {
+										offs[o+bo] = true
+									}
+								}
 							}
 						}
 					}
@@ -296,6 +401,7 @@ func (c *Ctx) runCumTab(rule string, pkgs []*packages.Package, fileOK func(fn *s
 					if strict {
 						pred = "first T[i] > x"
 					}
+					pred += via
 					how := "raw"
 					switch {
 					case offs[0] && offs[-1]:
